@@ -17,8 +17,28 @@ static J gen_culling(Chooser &ch)
   o.area = false; o.plume = false; o.line = true;
   o.operations = false; o.cooling_models = false; o.custom_tags = false;
   g::GW w = g::gen_world(ch, o);
+  // a targeted share: long, shallowly dipping slab on a north-south trench that spans many degrees of latitude
+  // (the longitude extent of a member then differs most from what the trench coordinates alone suggest)
+  const bool shallow_ns = w.fr.sph && ch.chance(35);
+  if (shallow_ns)
+    {
+      J &f = w.root["features"][0];
+      const double lon0 = ch.lattice(-150, 150, 0.25), lat0 = ch.pick<double>({45.0, 50.0, -50.0, 55.0, -60.0});
+      const double span = ch.lattice(10, 25, 0.25) * (lat0 > 0 ? 1 : -1);
+      f["coordinates"] = J::arr({jp(lon0, lat0), jp(lon0 + ch.lattice(-1, 1, 0.25), lat0 + 0.5 * span), jp(lon0, lat0 + span)});
+      f["dip point"] = jp(lon0 + (ch.flip() ? 40.0 : -40.0), lat0 + 0.5 * span);
+      const double dip = ch.lattice(8, 25, 1);
+      J seg = J::obj();
+      seg["length"] = ch.lattice(500e3, 1000e3, 50e3) * (w.fr.R / 6371e3);
+      seg["thickness"] = J::arr({J(ch.lattice(40e3, 80e3, 10e3))});
+      seg["angle"] = J::arr({J(dip)});
+      f["segments"] = J::arr({seg});
+      f.erase("min depth");
+      w.feats[0].dmin = 0;
+      w.feats[0].reach = seg["length"].num() + seg["thickness"][0].num();
+    }
   // stress the bounds: high latitudes, trenches next to +-180, deep starts, shallow dips
-  if (w.fr.sph && ch.chance(50))
+  if (w.fr.sph && !shallow_ns && ch.chance(50))
     for (auto &f : w.root["features"].a)
       if (ch.flip())
         {
@@ -44,7 +64,32 @@ static J gen_culling(Chooser &ch)
   for (int i = 0; i < n; ++i)
     {
       const g::FM &m = w.feats[ch.index(w.feats.size())];
-      if (ch.chance(40)) { qs.push(g::gen_query(ch, w, &m)); continue; }
+      if (ch.chance(30)) { qs.push(g::gen_query(ch, w, &m)); continue; }
+      if (ch.chance(45))
+        {
+          // near the far end of the member: from a trench point go towards the dip-point side by most of the
+          // horizontal extent of the surface, at the depth the surface has there (estimated with the first dip)
+          const J &f = w.root.at("features")[static_cast<size_t>(&m - &w.feats[0])];
+          const double dip = f.at("segments")[0].at("angle")[0].num() * DEG;
+          const double frac = ch.real(0.55, 1.0), along = frac * (m.reach - 40e3);
+          const double hor = along * std::cos(dip), dep = m.dmin + along * std::sin(dip) + ch.real(5e3, 35e3);
+          const size_t k = ch.index(m.coords.size() - 1);
+          const double t = ch.real(0, 1);
+          const double px = m.coords[k][0] + t * (m.coords[k + 1][0] - m.coords[k][0]), py = m.coords[k][1] + t * (m.coords[k + 1][1] - m.coords[k][1]);
+          const double tx = m.coords[k + 1][0] - m.coords[k][0], ty = m.coords[k + 1][1] - m.coords[k][1], tn = std::sqrt(tx * tx + ty * ty);
+          double nx = -ty / tn, ny = tx / tn;
+          if ((m.dip_point[0] - px) * nx + (m.dip_point[1] - py) * ny < 0) { nx = -nx; ny = -ny; }
+          double a, b;
+          if (w.fr.sph)
+            {
+              const double ang = hor / std::max(1.0, w.fr.R - dep) / DEG; // degrees of arc at the depth of the point
+              b = std::max(-89.5, std::min(89.5, py + ang * ny));
+              a = px + ang * nx / std::max(0.05, std::cos(b * DEG));
+            }
+          else { a = px + hor * nx; b = py + hor * ny; }
+          qs.push(g::make_query(w.fr, a, b, dep));
+          continue;
+        }
       // rim of the region a member can occupy: any direction from a trench point, 0.6 .. 1.3 reaches away, any depth down to min depth + 1.2 reach
       const size_t k = ch.index(m.coords.size());
       const double ang = ch.real(0, 2 * PI), rad = ch.real(0.5, 1.3) * (m.reach / 1e3) * km;
